@@ -293,7 +293,62 @@ def date_patterns(ctx):
         nxt = b.succs(cur)
         cur = nxt[0] if len(nxt) == 1 else None
     if not out:
+        out = _date_patterns_from_table(ctx, b)
+    if not out:
         raise AnchorLost('SmartCalc::default no longer installs date rules')
+    return out
+
+
+def _const_strs(ctx, e, depth=0):
+    """the string elements of a constant array / slice expression (an array literal, a promoted constant, a `const` item)"""
+    x = e
+    for _ in range(12):
+        if x[0] in ('ref', 'deref'):
+            x = x[1]
+        elif x[0] == 'cast':
+            x = x[3]
+        else:
+            break
+    if x[0] == 'aggr' and x[1] == 'array':
+        vals = [const_str(a) for a in x[2]]
+        return None if any(v is None for v in vals) else vals
+    if x[0] == 'const' and x[2] is None and depth < 4:
+        txt = str(x[3])
+        m = re.fullmatch(r'const (.*)::promoted\[(\d+)\]', txt)
+        kb = None
+        if m:
+            kb = ctx.facts.bodies.get('%s::{promoted#%s}' % (m.group(1), m.group(2)))
+        elif txt.startswith('const '):
+            kb = ctx.facts.bodies.get(txt[6:])
+        if kb is not None and not kb.loops():
+            return _const_strs(ctx, kb.ret_expr(), depth + 1)
+    return None
+
+
+def _date_patterns_from_table(ctx, b):
+    """the default date rules kept in a `const` table of (language, patterns) rows that SmartCalc::default walks"""
+    from .interval import _array_column
+    out = {}
+    bodies = [b] + list(closures_of(ctx, b))
+    for bb in bodies:
+        for bid, t in bb.calls(r'SmartCalc::set_date_rule$'):
+            langs = _array_column(strip(bb.expr(t['args'][1])))
+            if not langs:
+                continue
+            rows = None
+            for x in walk(bb.expr(t['args'][2])):
+                col = _array_column(strip(x)) if x[0] in ('field', 'ref', 'deref', 'call') else None
+                if col and len(col) == len(langs) and all(_const_strs(ctx, c) is not None for c in col):
+                    rows = [_const_strs(ctx, c) for c in col]
+                    break
+            if rows is None:
+                raise AnchorLost('SmartCalc::default: the pattern column of the date rule table is not constant at %s' % t['loc'])
+            for lg, pats in zip(langs, rows):
+                lgs = const_str(lg)
+                if lgs is None:
+                    raise AnchorLost('SmartCalc::default: a language of the date rule table is not constant')
+                out.setdefault(lgs, [])
+                out[lgs] += pats
     return out
 
 
